@@ -328,6 +328,8 @@ def run_shard(ctx):
         lim = max(abs(v) for a in atoms for v in a.xyz)
         if lim > 900000:
             return None
+        if {a.xyz for a in atoms} & {b.xyz for b in image}:
+            return None            # an atom on the symmetry element coincides with its image: no keying by position
         ents = atoms + [gen.ter_line(atoms[-1])] + image + [gen.ter_line(image[-1])]
         pdbio.renumber_serials(ents)
         o = _S()
@@ -407,6 +409,8 @@ def run_shard(ctx):
         moved = pdbio.move(B, pdbio.ROTATIONS[0], t)
         B = pdbio.atoms_of(moved)
         if any(not pdbio.COORD_MIN + 2000 < v < pdbio.COORD_MAX - 2000 for a in B for v in a.xyz):
+            return None
+        if {a.xyz for a in A} & {b.xyz for b in B}:
             return None
         cid = "B" if A[0].chain != "B" else "C"
         for a in B:
